@@ -336,21 +336,27 @@ CHECKS["C08"] = dict(
 )
 
 CHECKS["C21"] = dict(
-    category="other",
-    text="The independent checks are EXECUTABLE SPECIFICATIONS written in Lean from the formats' own rules, not from the ISLa constraints "
-    "(Model/Formats.lean: quote-aware CSV field counts; XML tag balance, attribute uniqueness per tag and namespace prefixes declared in scope; "
-    "simple-TAR 216-byte entries with NUL-padded names, 6-digit octal checksum over the header with the checksum field blanked, type flag and "
-    "link target among the archive's entries; reST on the derivation tree: underline at least as long as the title, link targets unique and "
-    "defined, adjacent enumeration items numbered n, n+1 with n > 0), pinned down by theorems and accepted / rejected examples "
-    "(Properties/C21.lean). They are not models of ISLa code: nothing about the solver's search is proved, so the claim over ALL seeds and cost "
-    "settings is explored, not proved. Tie: the real solver runs on the shipped grammar + constraints under a grid of random seeds, "
-    "instantiation limits, cost-weight vectors and queue settings, and EVERY generated input is judged by the compiled specification; for reST, "
-    "docutils itself (when importable) is run on every generated document as an additional external oracle.",
+    category="proof",
+    text="The solver is not modelled; what is proved is the INDEPENDENT CHECK every generated input is passed through. The checks are executable "
+    "Lean functions written from the formats' own rules, not from the ISLa constraints (Model/Formats.lean), and each is proved sound AND complete "
+    "for a declarative statement of the rule, for every input (Properties/C21.lean, 1200 lines of proof in Proofs/Formats.lean): csvOk_records - "
+    "a quote-aware CSV text is accepted iff all records have the same number of separators outside quotes; xmlOk_iff - accepted iff the token "
+    "sequence is ONE well-formed element (balanced tags with matching names, no text outside the root) whose tags have pairwise distinct "
+    "attribute names and only namespace prefixes declared in scope (tagOk_iff); tarOk_iff / tarEntry_sound - accepted iff the text is a "
+    "positive number of 216-character entries with NUL-padded names, the six octal digits at offset 100 denoting the sum of the header's "
+    "character codes with the checksum field blanked, NUL+blank terminator, type flag 0/2, the content marker, and every non-empty link target "
+    "naming another entry; restNumberingOk_iff - every enumeration's items carry numbers with adjacent pairs (a, a+1), a > 0; reST underline / "
+    "link-target checks are direct tree functions. Tie: the real solver runs on the shipped grammar + constraints under a grid of random seeds, "
+    "instantiation limits, cost-weight vectors and queue settings, and EVERY generated input is judged by the compiled checker; a rejected "
+    "input is a failing input of the property.",
     design_ref="DESIGN.md section 7 C21",
-    note="The Lean specifications are part of the trusted base (they define 'valid'). The docutils clause cannot be expressed by a Lean model; "
-    "docutils is used as an external oracle only. Known finding: the shipped reST numbering constraint is vacuous (consecutive() never holds for "
-    "two enumeration items because of the line-feed leaf between them), so non-consecutive enumerations are generated.",
-    technique="Lean 4 executable specifications of the four formats (+ theorems about them) judging every input the real solver generates from the shipped formalizations",
+    note="Assurance for the solver on the shipped formalizations is per explored output (translation-validation style): the claim over ALL seeds "
+    "and cost settings is explored, not proved. The declarative rules in the theorem statements define 'valid' (an empty link name of a TAR "
+    "symlink is allowed because the shipped constraint allows it). The reST clause 'docutils renders without errors' cannot be expressed by "
+    "a Lean model: docutils itself (importable in this sandbox) is run on every generated document as an additional, labelled EXTERNAL oracle. "
+    "Known finding: the shipped reST numbering constraint is vacuous (consecutive() never holds for two enumeration items because of the "
+    "line-feed leaf between them), so non-consecutively numbered lists are generated.",
+    technique="Lean 4 theorems (each format checker = its declarative rule, sound and complete) + certification of every input the real solver generates from the shipped formalizations",
 )
 
 NOT_APPLICABLE = {
